@@ -35,10 +35,11 @@ MANIFEST = dict(
          "named forms, from/to/in bounds, 7 week starts, align on/off, --empty on/off; an independent Python oracle on "
          "ledger's own rows supplies the failing input when a proof or the tie breaks.",
     note="Guard of every theorem: 0 < length. For length 0 the termination measure of the stabilize loop does not decrease "
-         "(C13.zero_length_no_progress) and the binary hangs (SIGFPE for weeks): finding C13:zero-length-period. Modelled, not "
+         "(C13.zero_length_diverges); the parser therefore has to refuse a zero length. Modelled, not "
          "verified: boost::gregorian date arithmetic (Ledger.Cal), std::stable_sort is a stable sort, the date words of a "
          "period are fully specified (Y/M/D, Y/M, Y); relative forms (this/last/next, month names, N days ago) are outside "
-         "the model. --begin/--end overriding the period's own bounds and --exact are not covered.",
+         "the model. --begin/--end overriding the period's own bounds and --exact are not covered. The zero-length hang "
+         "(C13:zero-length-period) is repaired in the period parser; C13.zero_rejected pins the repair.",
     technique="Lean 4 proof over a step-by-step model of the interval machine + regenerated keyword/code tables + differential model/binary check",
     ref="DESIGN.md §5 C13")
 
@@ -785,10 +786,33 @@ def check_parser(ctx, rng, count):
             "from 2020/13/01", "every days", "every -1 days", "every 70000 days", "monthlyy", "dayly", "from 2020/01/01 from 2020/02/01",
             "to 2020/01/01 until 2020/02/01", "in 2020 in 2021", "2020 in 2021", "every 2 2 days", "from monthly", "weeks", "month",
             "every 0 fortnights", "from 2021/02/29", "until 2020/00/10", "every 3 monthly"]
+    junk += ["2021 dayly", "dayly 2021", "in 2021 foo", "2021 foo monthly", "from 2021 foo to 2022 bar", "2021 months ago",
+             "2021 month", "2021 monthly", "2021 2022", "2021/03 foo", "from 2021/01/01 foo", "2021 1foo", "2021 foo1 weekly",
+             "monthly 2021 %%", "2021 - 2022", "2021 every", "until 2030 x every 2 weeks"]
+
+    def mutate(t):
+        """one character of one word deleted, doubled or replaced: misspelt keywords and dates"""
+        ws = t.split(" ")
+        i = rng.randrange(len(ws))
+        w = ws[i]
+        k = rng.randrange(len(w))
+        r = rng.random()
+        if r < 0.35:
+            w = w[:k] + w[k + 1:]
+        elif r < 0.7:
+            w = w[:k] + w[k] + w[k:]
+        else:
+            w = w[:k] + rng.choice("abcdexyz0123/") + w[k + 1:]
+        ws[i] = w
+        return " ".join(x for x in ws if x)
     texts = []
     for _ in range(count):
         r = rng.random()
-        if r < 0.55:
+        if r < 0.25:
+            t = mutate(" ".join(rng.sample(good, rng.randint(1, 3))))
+            if t:
+                texts.append(t)
+        elif r < 0.55:
             texts.append(" ".join(rng.sample(good, rng.randint(1, 3))))
         elif r < 0.8:
             parts = rng.sample(good, rng.randint(0, 2)) + [rng.choice(junk)]
@@ -825,8 +849,13 @@ def check_parser(ctx, rng, count):
         _, q, n, b, e, since = m.split("\t")
         md = re.search(r"--- Before stabilization ---\n(?:\s*range:[^\n]*\n)?duration: (\d+) (day|week|month|quarter|year)s?\n", out)
         got = (md.group(2).upper() + "S", md.group(1)) if md else ("-", "0")
+        lst = parse_period_output(out)
+        want_b = fmt_period_date(nd(int(b))) if b != "-" else None
+        want_e = fmt_period_date(nd(int(e))) if e != "-" else None
         if (q, n) != got:
             ctx.tie_broken("corr:period.parse", "period %r: model duration %s %s, ledger %s" % (t, q, n, got))
+        elif lst is not None and ((want_b is not None and lst[0] != want_b) or lst[1] != want_e):
+            ctx.tie_broken("corr:period.parse", "period %r: model bounds %s..%s, ledger start %s finish %s" % (t, want_b, want_e, lst[0], lst[1]))
         else:
             ctx.traces_validated += 1
 
